@@ -120,16 +120,29 @@ def byteview(t, depth=0):
 
 # -- literal tables -------------------------------------------------------------------------
 
-def _enumerable(it, n=None):
+def _enumerable(it, n=None, via_iter=False):
     """the items an iterator expression yields when they can be listed: the elements of an array literal, or the
     first n chunks of view.chunks_exact(k) (as constant-bounds slices of the view)"""
+    # strip() looks through iter() / iter_mut() / into_iter(): remember that the value is iterated
+    z0 = it
+    for _ in range(6):
+        if z0[0] in ("ok", "cast", "ref", "partial"):
+            z0 = z0[2] if z0[0] == "cast" else z0[1]
+        elif z0[0] == "call" and z0[2] and z0[1].rsplit("::", 1)[-1] in ("into_iter", "iter", "iter_mut"):
+            via_iter = True
+            z0 = z0[2][0]
+        else:
+            break
     y = strip(it)
     while y[0] == "cast":
         y = strip(y[2])
     if y[0] == "call" and y[1].rsplit("::", 1)[-1] in ("into_iter", "iter", "iter_mut") and y[2]:
-        return _enumerable(y[2][0], n)
+        return _enumerable(y[2][0], n, True)
     if y[0] == "agg" and y[1][0] == "array" and y[2]:
         return list(y[2])
+    if via_iter and n is not None and (y[0] in ("param", "field", "local") or (y[0] == "call" and y[1].rsplit("::", 1)[-1] == "default")):
+        # iter() / iter_mut() over an array that is not a literal, zipped with a table of n entries: its first n elements
+        return [("index", y, ("const", "usize", i)) for i in range(n)]
     if y[0] == "call" and y[1].rsplit("::", 1)[-1] in ("chunks_exact", "chunks_exact_mut") and len(y[2]) == 2 and n is not None:
         k = const_eval(y[2][1])
         if k:
